@@ -40,7 +40,8 @@ namespace Internals {
 
 bool increment(IPv4Address &addr) {
     uint32_t addr_int = Endian::be_to_host<uint32_t>(addr);
-    bool reached_end = ++addr_int == 0xffffffff;
+    // Same contract as increment_buffer: true iff the address wrapped around
+    bool reached_end = ++addr_int == 0;
     addr = IPv4Address(Endian::be_to_host<uint32_t>(addr_int));
     return reached_end;
 }
